@@ -8,6 +8,8 @@ import (
 	"encoding/json"
 	"fmt"
 	"os"
+	"strconv"
+	"syscall"
 
 	"github.com/tailscale/setec/db"
 
@@ -66,6 +68,11 @@ func main() {
 	if err := json.Unmarshal(raw, &spec); err != nil {
 		fmt.Fprintln(os.Stderr, "bad spec:", err)
 		os.Exit(2)
+	}
+	if u := os.Getenv("VERIF_UMASK"); u != "" {
+		if n, err := strconv.ParseUint(u, 8, 32); err == nil {
+			syscall.Umask(int(n))
+		}
 	}
 	key := realdb.DummyKey(spec.Key)
 	su := realdb.Super()
